@@ -46,17 +46,24 @@ FailedAt(v, r) ==
    \cup (IF Cardinality(RepVerdicts(r)) # 1 \/ "P" \in RepVerdicts(r) THEN {"same_verdict_as_response"} ELSE {})
    \cup (IF Cardinality(NoPatVerdicts(r)) # 1 \/ "P" \in NoPatVerdicts(r) THEN {"same_verdict_patterns_disabled"} ELSE {})
    \cup (IF Cardinality(FmtVerdicts(r)) # 1 \/ "P" \in FmtVerdicts(r) THEN {"same_verdict_formats_enabled"} ELSE {})
+   \* the option sets of spec/Gen_C19O.tla (mode and message customiser in every order, per reading and extra option): r.xg[i].vs
+   \* is the list of distinct verdicts observed under the option sets whose base is r.xg[i].base -- one verdict, never a panic,
+   \* and with the empty base the verdict of the plain default run
+   \cup (IF "xg" \in DOMAIN r /\ \E i \in DOMAIN r.xg : Len(r.xg[i].vs) # 1 \/ r.xg[i].vs[1] = "P" \/ (r.xg[i].base = <<>> /\ r.xg[i].vs[1] # r.d)
+         THEN {"same_verdict_under_every_option_order"} ELSE {})
    \* the errors of a directed reading point into the value as that reading left it (defaults installed): logged as <key>v
    \cup UNION {ErrBad(IF (x[1] \o "v") \in DOMAIN r THEN r[x[1] \o "v"] ELSE v, ErrAt(r, x)) : x \in Errs(r)}
 
+Shared(line) == "share" \in DOMAIN line      \* repeated sub-schemas realised as references to one shared component
+
 LineOK(line) ==
    IF line.load # "ok"
-   THEN CSVWrite("%1$s", <<ToJson([case |-> line.case, s |-> line.s, failed |-> {"schema_does_not_load"},
+   THEN CSVWrite("%1$s", <<ToJson([case |-> line.case, s |-> line.s, share |-> Shared(line), failed |-> {"schema_does_not_load"},
                                     class |-> "none"])>>, "violations.ndjson")
    ELSE LET vs == TheVals(line) IN
         \A i \in DOMAIN vs :
            LET bad == FailedAt(vs[i], line.r[i]) IN
-           bad = {} \/ CSVWrite("%1$s", <<ToJson([case |-> line.case, s |-> line.s, v |-> vs[i], failed |-> bad,
+           bad = {} \/ CSVWrite("%1$s", <<ToJson([case |-> line.case, s |-> line.s, share |-> Shared(line), v |-> vs[i], failed |-> bad,
                                                    r |-> line.r[i], class |-> Class(line.s, vs[i], line.r[i], bad)])>>,
                                 "violations.ndjson")
 
